@@ -26,6 +26,14 @@ CLAIMED = {
             "flag, max_results, threshold, pre_filter; inputs unchanged).",
             "Bounds: hosts <=4 nodes (thorough 5 nodes <=5 bonds), patterns <=3 nodes, element {C,N}, hcount {0,1}(2), "
             "order {1,2}, charge {0,1}; node_attrs=[element,charge], edge_attrs=[order]."),
+    "C07": ("Bounded symbolic model checking of GraphMatcherEngine.isomorphic/get_mappings, SubgraphMatch.subgraph_isomorphism/"
+            "is_subgraph and graph_morphism.graph_isomorphism/subgraph_isomorphism on the real VF2-based code: verdicts "
+            "against bijection / induced / monomorphism formulas over all label values, invariance under relabelling, "
+            "symmetry, filter on/off agreement, and independence from earlier queries by engines with other attribute "
+            "selections on the same graph objects.",
+            "Bounds: all shape pairs <=3 nodes, equal-size 4-node pairs (<=3 bonds quick, <=4 thorough) with reduced "
+            "label domains; element {C,N}, charge {0,1}, hcount {0,1}, order {1,2}; WL-filter paths realise the hashed "
+            "labels (solver-driven enumeration there)."),
     "C15": ("Bounded symbolic model checking of the real CRNHyperGraph: every operation code and operand of a history of "
             "<=3 (quick) / <=4 (thorough) edits is a solver variable, every feasible path is explored, and the "
             "representation invariant, frame conditions and copy/merge isolation are checked after every step against "
